@@ -214,3 +214,100 @@ def run(ctx: Ctx):
             ok = isinstance(fv.value, ast.Attribute) and fv.value.attr == "method" and dotted(fv.value.value) == par
             ctx.check(ok, "verbatim-wire-data", f"{fname}:LSPMethods",
                       f"method constant interpolates `{ast.unparse(fv.value)}`, not {par}.method", P_CLASSES, fv.value.lineno)
+
+
+# ------------------------------------------------------------------------------------------------
+# member nullability / null-ignoring / constructor assignment: generate_property and generate_constructor
+# folded (E5) over a finite abstraction of their input
+
+def _fold_members(ctx: Ctx, idx):
+    from .. import microeval
+    from ..microeval import Record, Raised
+
+    cm = idx.get(P_CLASSES)
+    hm = idx.get("generator/plugins/dotnet/dotnet_helpers.py")
+    hit = microeval.Interp(hm.tree, name=hm.rel)
+    it = microeval.Interp(name=P_CLASSES)
+    # real helpers that are pure string functions
+    for nm in ("to_upper_camel_case", "to_camel_case", "get_parts", "indent_lines", "get_special_case_property_name",
+               "get_special_case_class_name"):
+        if nm in hit.globals:
+            it.globals[nm] = hit.globals[nm]
+    for nm in ("has_null_base_type", "filter_null_base_type"):
+        fn = cm.functions.get(nm)
+        if fn is None:
+            raise AnalysisError(f"{P_CLASSES}: {nm} not found")
+        it.globals[nm] = microeval.Closure(fn, None, it)
+    gp, gc = cm.functions.get("generate_property"), cm.functions.get("generate_constructor")
+    if gp is None or gc is None:
+        raise AnalysisError(f"{P_CLASSES}: generate_property / generate_constructor not found")
+    current = {}
+    it.globals["get_type_name"] = ("host", lambda *a, **k: current["type_name"])
+    it.globals["get_converter"] = ("host", lambda *a, **k: None)
+    it.globals["get_doc"] = ("host", lambda *a, **k: [])
+    it.globals["generate_extras"] = ("host", lambda *a, **k: [])
+
+    class Types:
+        pass
+    types_rec = Record("TypeData", {"add_ctor": ("host", lambda *a, **k: None)})
+
+    def T(kind, **kw):
+        return Record("Type", {"kind": kind, **kw})
+    null = T("base", name="null")
+    shapes = {
+        "string": (T("base", name="string"), "string"),
+        "struct": (T("reference", name="Range"), "Range"),
+        "array": (T("array", element=T("base", name="string")), "ImmutableArray<string>"),
+        "map": (T("map", key=T("base", name="string"), value=T("base", name="string")), "ImmutableDictionary<string, string>"),
+        "string|null": (T("or", items=[T("base", name="string"), null]), "string"),
+        "array|null": (T("or", items=[T("array", element=T("base", name="string")), null]), "ImmutableArray<string>"),
+    }
+    n = 0
+    for sname, (ty, tname) in shapes.items():
+        for optional in (False, True):
+            current["type_name"] = tname
+            prop = Record("Property", {"name": "someProp", "type": ty, "optional": optional, "documentation": None,
+                                       "since": None, "proposed": None, "deprecated": None})
+            try:
+                lines, got_type = it.call(gp, [prop, None, types_rec, [], "SomeClass"])
+            except Raised as e:
+                raise AnalysisError(f"{P_CLASSES}: generate_property raises {e.exc_name} when folded for {sname}")
+            n += 1
+            null_adm = sname.endswith("|null")
+            member = next((l for l in lines if l.startswith("public ")), "")
+            nullable = member.startswith(f"public {tname}? ")
+            ignoring = any("NullValueHandling.Ignore" in l for l in lines)
+            wire = [l for l in lines if "DataMember" in l]
+            case = f"generate_property:type={sname}:optional={optional}"
+            ctx.check(nullable == (optional or null_adm), "member-nullable-iff-optional", case,
+                      f"a property of type {sname} (optional={optional}, null-admitting={null_adm}) is emitted as "
+                      f"`{member}`: it must be nullable exactly when optional or null-admitting", P_CLASSES, gp.lineno,
+                      sample={"case": case, "member": member})
+            ctx.check(ignoring == (optional and not null_adm), "member-null-ignoring-iff-optional", case,
+                      f"a property of type {sname} (optional={optional}, null-admitting={null_adm}) "
+                      f"{'carries' if ignoring else 'lacks'} NullValueHandling.Ignore: an unset optional property must be "
+                      f"left out of the JSON, a null-admitting one must be written", P_CLASSES, gp.lineno)
+            ctx.check(wire == ['[DataMember(Name = "someProp")]'], "verbatim-wire-data", case + ":DataMember",
+                      f"DataMember line is {wire}", P_CLASSES, gp.lineno)
+            # constructor
+            struct = Record("Structure", {"name": "SomeClass"})
+            try:
+                ctor = it.call(gc, [struct, types_rec, [(prop, tname)]])
+            except Raised as e:
+                raise AnalysisError(f"{P_CLASSES}: generate_constructor raises {e.exc_name} when folded for {sname}")
+            ctx.check(any(l.strip() == "SomeProp = someProp;" for l in ctor), "ctor-assigns-member", case,
+                      f"the JSON constructor does not assign the member: {ctor}", P_CLASSES, gc.lineno)
+            has_default = any(l.strip().startswith(f"{tname}") and "=" in l for l in ctor if "someProp" in l and "SomeProp" not in l)
+            ctx.check(has_default == (optional or null_adm), "ctor-optional-has-default", case,
+                      f"constructor parameter for an {'optional' if optional or null_adm else 'required'} property: {ctor}",
+                      P_CLASSES, gc.lineno)
+    ctx.floor("generate_property cases folded", n, 12)
+
+
+_run_base = run
+
+
+def run(ctx: Ctx):  # noqa: F811
+    _run_base(ctx)
+    idx = Index(ctx.src, dirs=("generator/plugins/dotnet",))
+    _fold_members(ctx, idx)
